@@ -95,6 +95,13 @@ fn rand_symbol(rng: &mut Rng) -> Vec<u8> {
     let mut s: Vec<u8> = (0..n)
         .map(|_| if rng.chance(1, 12) { *rng.pick(b"\t\r;\xff\x00\xc3\xa9-_.[]") } else { *rng.pick(b"abcxyz019_ABC") })
         .collect();
+    if rng.chance(1, 3) {
+        // any bytes but the two separators
+        s = free_text(rng, b" \n", 24);
+        if s.is_empty() {
+            s.push(b'q');
+        }
+    }
     if s[0] == b';' {
         s[0] = b's';
     }
@@ -103,6 +110,10 @@ fn rand_symbol(rng: &mut Rng) -> Vec<u8> {
 
 fn rand_comment(rng: &mut Rng) -> Vec<u8> {
     let n = match rng.below(4) { 0 => 0, _ => rng.range(0, 14) };
+    if rng.chance(1, 3) {
+        // any byte but the line end
+        return free_text(rng, b"\n", 40);
+    }
     (0..n)
         .map(|_| if rng.chance(1, 10) { *rng.pick(b"\t\r;\xff\x00") } else { *rng.pick(b" abc 019;  sort") })
         .collect()
@@ -432,7 +443,7 @@ pub fn gen_case(rng: &mut Rng, opt: &str, thorough: bool) -> String {
         let fams: Vec<&str> = opt.split('+').collect();
         *rng.pick(&fams)
     };
-    let mut case = Case { k: None, ls: false, data: vec![], expect: None, tok: None, valid: None, exact: None };
+    let mut case = Case { k: None, ls: false, lsb: false, data: vec![], expect: None, tok: None, valid: None, exact: None };
     match family {
         "valid" => {
             // the `TryFrom<&str>` validators of the three constant types on an arbitrary string
@@ -533,6 +544,7 @@ pub fn gen_case(rng: &mut Rng, opt: &str, thorough: bool) -> String {
             let r = render(rng, &doc, false);
             case.data = if rng.chance(1, 5) { mutate(rng, r.bytes) } else { r.bytes };
             case.ls = true;
+            case.lsb = rng.chance(1, 3);
         }
         _ => panic!("unknown family {}", family),
     }
@@ -544,7 +556,7 @@ pub fn fault_sweep(rng: &mut Rng) -> Vec<String> {
     let doc = gen_doc(rng);
     let r = render(rng, &doc, false);
     (0..=r.bytes.len())
-        .map(|k| Case { k: Some(k), ls: false, data: r.bytes.clone(), expect: None, tok: None, valid: None, exact: None }.line())
+        .map(|k| Case { k: Some(k), ls: false, lsb: false, data: r.bytes.clone(), expect: None, tok: None, valid: None, exact: None }.line())
         .collect()
 }
 
@@ -569,7 +581,7 @@ pub fn validators_exhaustive() -> Vec<String> {
     let mut out = vec![];
     for s in &strings {
         for t in ['b', 'd', 'h'] {
-            out.push(Case { k: None, ls: false, data: vec![], expect: None, tok: None, valid: Some((t, s.clone())), exact: None }.line());
+            out.push(Case { k: None, ls: false, lsb: false, data: vec![], expect: None, tok: None, valid: Some((t, s.clone())), exact: None }.line());
         }
     }
     out
